@@ -227,6 +227,7 @@ def r5(ctx):
         "instruments": ("IndexMap::values(instruments.0)", "tuple{0: $1.instrument.name_internal, 1: $1.tear_sheet}"),
         "assets": ("IndexMap::iter(assets.0)", "tuple{0: $1.0, 1: $1.1.statistics}"),
     }
+    loop_forms = {}
     for field, (src, pair) in want.items():
         t = f.get(field)
         ok = False
@@ -236,6 +237,21 @@ def r5(ctx):
             cb, _ = mir.closure_body(ctx.facts, m[2][1])
             got = (render(m[2][0]), render(cb.return_term()) if cb else None)
             ok = got == (src, pair)
+        elif t and t[0] == "mutated":
+            # loop form: an empty map filled by one complete loop over the same source with one unconditional insert per
+            # element - `insert(table, key, value)` is the pair
+            from rules import common_idx as _ci
+            kind = "Instrument" if field == "instruments" else "Asset"
+            loop_forms[field] = _ci._loop_fill(ctx, b, init, t, kind)
+            vs = [v for v in common.elementwise_views(ctx, init) if v["kind"] == "loop" and v["complete"] and
+                  any(c[0].startswith("IndexMap::insert(" + render(t)) for c in v["calls"])]
+            if loop_forms[field] and len(vs) == 1:
+                ins = [c for c in vs[0]["calls"] if c[0].startswith("IndexMap::insert(" + render(t))]
+                kv = pair.replace("$1", "$x")[len("tuple{0: "):-1].replace(", 1: ", ", ")
+                got = (vs[0]["source"], [c[0][len("IndexMap::insert(" + render(t)) + 2:-1] for c in ins])
+                # (`.iter()` is transparent, `.values()` is not: the element of `values()` is the value, of `iter()` the pair)
+                ok = len(ins) == 1 and ins[0][1] == "true" and got[1] == [kv] and \
+                    vs[0]["source"] == (src if field == "instruments" else src[len("IndexMap::iter("):-1])
         ctx.check("TradingSummaryGenerator::init:" + field, ok,
                   "each entry pairs an entity's own name with that same entity's own statistics generator",
                   got=got, want=(src, pair), key="pairing")
@@ -248,6 +264,8 @@ def r5(ctx):
                 for fld in ("instruments", "assets"):
                     i = rv["kind"]["fields"].index(fld)
                     muts = common_idx._local_mutators(b, rv["ops"][i])
+                    if loop_forms.get(fld):
+                        muts = [m_ for m_ in muts if not m_[0].endswith("::insert")]   # the verified fill loop itself
                     ctx.check("TradingSummaryGenerator::init:" + fld, not muts,
                               "the per-entity table keeps the engine's index order (it is looked up by position)",
                               sites=[x[1] for x in muts], got=[x[0] for x in muts], key="order-kept")
